@@ -190,6 +190,10 @@ func (e *Env) groupEmptiness(l *facts.Level) {
 		return
 	}
 	who := fname(ie)
+	if l.Names == nil {
+		c.Undecided("group-emptiness", who, e.P.Pos(ie.Pos()), l.NamesProblem)
+		return
+	}
 	leaves, err := ir.Leaves(e.P.SSAFunc(ie), ir.LeafOptions{Forward: true, Inline: e.inlineHelpers()})
 	if err != nil {
 		c.Undecided("group-emptiness", who, e.P.Pos(ie.Pos()), err.Error())
